@@ -67,10 +67,18 @@ def _gen_dir(rng, files, sp, rel, name, cfg, depth, style):
     n_children = rng.choice([0, 1, 2, 2, 3])
     for child in rng.sample(SUB_NAMES, min(n_children, len(SUB_NAMES))):
         _gen_entry(rng, files, sp, d, child, cfg, depth + 1)
-    if rng.random() < cfg["p_noise"]:
-        noise = rng.choice(["pycache", "txt", "dotted", "bak", "nonident"])
-        if noise == "pycache":
+    n_noise = rng.choice([1, 1, 2, 3]) if rng.random() < cfg["p_noise"] else 0
+    for noise in rng.sample(["pycache", "txt", "dotted", "bak", "nonident", "dotdir", "dotdir2"], n_noise):
+        if noise in ("dotdir", "dotdir2"):
+            # directories whose names contain a dot (hidden directories, version directories) are never packages
+            dn = rng.choice([".cache", ".git", "v1.0", "build.tmp"])
+            files[f"{d}{dn}/{rng.choice(SUB_NAMES)}.py"] = _body("py", f"sp{sp}/{d}{dn}/x.py")
+            if rng.random() < 0.4:
+                files[f"{d}{dn}/__init__.py"] = _body("py", f"sp{sp}/{d}{dn}/__init__.py")
+        elif noise == "pycache":
             files[f"{d}__pycache__/{rng.choice(SUB_NAMES)}{PYC_TAG}"] = ""
+            if rng.random() < 0.4:
+                files[f"{d}__pycache__/__init__{PYC_TAG}"] = ""
             if rng.random() < 0.5:
                 files[f"{d}__pycache__/{rng.choice(SUB_NAMES)}.py"] = _body("py", f"sp{sp}/{d}__pycache__/x.py")
         elif noise == "txt":
